@@ -27,13 +27,15 @@ def analyse(prop: str, src: str, overlay=None):
     prog = Program(src, overlay)
     ctx = Ctx(prog, prop)
     mod.run(ctx)
-    if ctx.deferred and (overlay is None or not ctx.findings):
-        # the real tree must be analysable in full; an edited tree (self-validation) may lose a clause as long as
-        # the edit is reported by another one
+    # findings that are not listed as known: a violation that was found stays a violation, whatever else happened
+    fresh = split_findings(prop, ctx.findings)[1] if overlay is None else ctx.findings
+    if ctx.deferred and not fresh:
+        # a clause that could not be analysed fails the run unless another clause already reports a violation (the
+        # clause that was lost is printed with it)
         raise AnalysisError(ctx.deferred[0])
-    if overlay is None:
-        # floors guard the real tree against vacuous passes; overlay runs (self-validation) edit the
-        # code on purpose and are judged by the findings they add or do not add
+    if overlay is None and not fresh:
+        # floors guard the real tree against vacuous *passes*; overlay runs (self-validation) edit the code on purpose
+        # and are judged by the findings they add or do not add
         ctx.check_floors()
     return ctx, mod
 
@@ -61,7 +63,13 @@ def main(argv=None) -> int:
         if args.tier == "thorough":
             from .selftest import run_selftest
 
-            extra = run_selftest(prop, args.src, ctx)
+            if split_findings(prop, ctx.findings)[1]:
+                # the stored mutants and variants are judged relative to a tree on which the property holds; on a
+                # tree that already violates it the violation is the result, not the state of the self-validation
+                print(f"SELFTEST {prop}: skipped - the tree under analysis violates the property")
+                extra = {"selftest": {"skipped_because": "violations on the tree under analysis"}}
+            else:
+                extra = run_selftest(prop, args.src, ctx)
     except AnalysisError as exc:
         print(f"ANALYSIS-ERROR property={prop}: {exc}")
         if not args.no_evidence:
@@ -101,6 +109,8 @@ def main(argv=None) -> int:
         print(f"  rule {rule}: {n} instance(s){f' (floor {fl})' if fl else ''}, {v} violated")
     for f, k in known:
         print(f"KNOWN-FINDING: property={prop} {f.rule} {f.func} `{f.construct}` -- {k.get('what_fails', f.message)}")
+    for text in ctx.deferred:
+        print(f"NOT-ANALYSED property={prop}: {text}")
     vdir = os.path.join(EVIDENCE_DIR, "violations")
     code = 0
     if fresh:
